@@ -105,7 +105,7 @@ func (x *c05Gen) extra(rate int) func(g *ProgGen, ind int) (string, bool) {
 		}
 		tabs := strings.Repeat("\t", ind)
 		switch k := r.Intn(24); {
-		case k == 0: // if / elif / else with comments in Cond, CondLast, Then, ThenLast, Last
+		case k == 0 || k == 16: // if / elif / else with comments in Cond, CondLast, Then, ThenLast, Last
 			s := "if"
 			if r.Chance(30) {
 				s += x.tail(g, 50) + "\n" + x.lines(g, ind+1, 40) + tabs + "\t" + g.simple() + x.tail(g, 30) + g.nl() + x.lines(g, ind, 40) + tabs + "then"
@@ -120,7 +120,7 @@ func (x *c05Gen) extra(rate int) func(g *ProgGen, ind int) (string, bool) {
 				s += x.lines(g, ind, 30) + tabs + "else" + x.tail(g, 40) + g.nl() + x.body(g, ind+1)
 			}
 			return s + x.lines(g, ind, 20) + tabs + "fi", true
-		case k == 1: // while / until: CondLast, DoLast
+		case k == 1 || k == 15 || k == 21: // while / until: CondLast, DoLast
 			s := r.Pick([]string{"while", "until"})
 			if r.Chance(40) {
 				s += x.tail(g, 40) + "\n" + x.body(g, ind+1) + tabs + "do"
@@ -128,7 +128,7 @@ func (x *c05Gen) extra(rate int) func(g *ProgGen, ind int) (string, bool) {
 				s += " " + g.simple() + x.tail(g, 30) + g.nl() + x.lines(g, ind, 40) + tabs + "do"
 			}
 			return s + x.tail(g, 40) + g.nl() + x.body(g, ind+1) + tabs + "done", true
-		case k == 2: // for: comments between the header and do (Stmt.Comments mid), DoLast
+		case k == 2 || k == 17: // for: comments between the header and do (Stmt.Comments mid), DoLast
 			hdr := "for i in " + g.word() + " " + g.word()
 			if g.Bash && r.Chance(20) {
 				hdr = "for ((i = 0; i < 3; i++))"
@@ -170,7 +170,7 @@ func (x *c05Gen) extra(rate int) func(g *ProgGen, ind int) (string, bool) {
 				s += tabs + "\t" + term + x.tail(g, 40) + g.nl()
 			}
 			return s + x.lines(g, ind, 40) + tabs + "esac", true
-		case k == 5: // block / subshell: Last
+		case k == 5 || k == 19: // block / subshell: Last
 			if r.Bool() {
 				return "{" + x.tail(g, 50) + g.nl() + x.body(g, ind+1) + tabs + "}", true
 			}
@@ -179,7 +179,7 @@ func (x *c05Gen) extra(rate int) func(g *ProgGen, ind int) (string, bool) {
 			open, cl := "$(", ")"
 			if r.Chance(25) {
 				open, cl = "`", "`"
-			} else if g.Bash && r.Chance(20) {
+			} else if g.Bash && r.Chance(40) {
 				open = r.Pick([]string{"<(", ">("})
 			}
 			pre := r.Pick([]string{"echo ", "x=", "echo a", "echo \"", "foo >"})
@@ -213,7 +213,7 @@ func (x *c05Gen) extra(rate int) func(g *ProgGen, ind int) (string, bool) {
 				in = strings.NewReplacer("`", "", "\\", "").Replace(in)
 			}
 			return pre + open + in + cl + post + r.Pick([]string{"", " b", "c"}), true
-		case k == 8 && g.Bash: // arrays: ArrayElem.Comments (before / trailing), ArrayExpr.Last
+		case (k == 8 || k == 20) && g.Bash: // arrays: ArrayElem.Comments (before / trailing), ArrayExpr.Last
 			s := r.Pick([]string{"a=(", "declare -a a=(", "a+=(", "local b=("}) + x.tail(g, 50) + "\n"
 			for i, n := 0, r.Intn(4); i < n; i++ {
 				s += x.lines(g, ind+1, 35)
@@ -239,7 +239,7 @@ func (x *c05Gen) extra(rate int) func(g *ProgGen, ind int) (string, bool) {
 				s += " " + op2 + x.tail(g, 60) + "\n" + x.lines(g, ind+1, 30) + tabs + "\t" + g.stmtInline()
 			}
 			return s, true
-		case k == 11: // function declarations: comment between the name and the body
+		case k == 11 || k == 18: // function declarations: comment between the name and the body
 			name := r.Pick([]string{"f", "g", "fn_1"})
 			hd := name + "()"
 			if g.Bash && r.Chance(30) {
